@@ -320,7 +320,14 @@ impl CompressedUsedLeafsIndexes {
     ) -> Result<(), ()> {
         let total_tree_height: u32 = tree_heights.iter().sum::<u8>().into();
 
-        if self.count >= (2u64.pow(total_tree_height) - 1) {
+        // Keys with a total tree height of 64 or more hold more leafs than the counter can address.
+        let last_count = if total_tree_height >= u64::BITS {
+            u64::MAX
+        } else {
+            2u64.pow(total_tree_height) - 1
+        };
+
+        if self.count >= last_count {
             return Err(());
         }
 
